@@ -38,14 +38,16 @@ def register(prop):
          "exactly once; nobody is suspected (C04 monitor), every buffer on the wire opens under the sender's current primary key (C15 tap); in-flight traffic drains between phases only",
          assumptions=["a decryption counts only if its key stays installed for its whole duration (RemoveKey of such a key is skipped by the executor)"])
 
-    prop("C01", [dict(scn="C01", quick=20000, thorough=1500000, wall_quick=100, wall_thorough=1500), dict(scn="C02I", quick=800, thorough=60000, wall_quick=60, wall_thorough=600, only=["rank-regression", "record-vanished"])],
+    prop("C01", [dict(scn="C01", quick=20000, thorough=1500000, wall_quick=100, wall_thorough=1500), dict(scn="C02I", quick=800, thorough=60000, wall_quick=60, wall_thorough=600, only=["rank-regression", "record-vanished"]),
+                 dict(scn="C06I", quick=1500, thorough=100000, wall_quick=40, wall_thorough=400, only=["refuted-peer-killed-by-stale-timeout"])],
          "bench mode: one real node, prior view of member x built from real claims (absent/alive/suspect/dead/left x incarnation in {0,1,2,5,2^31,2^32-3} x address x age vs "
          "DeadNodeReclaimTime), then 1-12 claims (alive/suspect/dead/leave/push-pull entries in all four states; incarnation base-2..base+2; same/other address/port; "
          "meta; valid/short/invalid version vectors; senders incl. the observer and x) delivered by direct call, UDP packet, inside a compound, compressed(+CRC) through the "
          "real ingest pipeline; exact per-claim oracle (stale => record, Members(), events, queued broadcast, timer all bit-identical); non-trivial = the sequence contained "
          "both a stale and a non-stale claim; distinct = distinct (prior, claim sequence) tuples. "
          "C02I (cluster mode): the node's own record under UpdateNode raced by forged suspect/dead/stale-alive claims about itself, interleaved by the scheduler at the "
-         "update/alive/suspect/dead yield sites, with the per-step rank-monotonicity monitor on every record (own record included)",
+         "update/alive/suspect/dead yield sites, with the per-step rank-monotonicity monitor on every record (own record included). "
+         "C06I (bench): a suspicion timeout whose validation has passed, descheduled before it acts, against a refutation at a higher incarnation: the stale suspicion must not kill the refuted peer",
          assumptions=["claims about the observer itself are C02's subject and not generated here"])
 
     prop("C04", [dict(scn="C04", quick=300, thorough=30000, wall_quick=120, wall_thorough=1800)],
@@ -60,10 +62,11 @@ def register(prop):
          "non-trivial = precondition true, >=2 live nodes, >=1 fault fired. C02I (loss-free 2-4 node cluster): when every UpdateNode racing accusations/concurrent updates returned nil, "
          "the node and all peers show the owner's latest metadata within the budget; " + FP,
          assumptions=["W = 3*B(C03) + K*PushPullInterval + GossipToTheDeadTime with ((n-2)/(n-1))^K < 1e-12 (random peer selection makes W a budget, not a protocol constant)"])
-    prop("C07", [dict(scn="C07", quick=150, thorough=8000, wall_quick=120, wall_thorough=2400), dict(scn="C04", quick=100, thorough=5000, wall_quick=60, wall_thorough=900)],
+    prop("C07", [dict(scn="C07", quick=150, thorough=8000, wall_quick=120, wall_thorough=2400), dict(scn="C04", quick=100, thorough=5000, wall_quick=60, wall_thorough=900),
+                 dict(scn="C02I", quick=1500, thorough=100000, wall_quick=60, wall_thorough=600, only=["event-pattern", "event-members-mismatch", "event-set-mismatch", "event-concurrent"])],
          "the fault-rich cluster histories of C05 (crash/restart/leave/partitions/loss) and the healthy histories of C04 with a recording EventDelegate on every node: "
          "per-member pattern (join update* leave)*, replay of the log == set captured inside each callback (under the node lock) == Members() at every scheduler step "
-         "incl. meta, callbacks never overlap; non-trivial as in C05/C04; " + FP)
+         "incl. meta, callbacks never overlap; non-trivial as in C05/C04. C02I: UpdateNode raced by accusations about the node: its own metadata in Members() changes only with an update event; " + FP)
 
     prop("C02", [dict(scn="C02", quick=20000, thorough=1500000, wall_quick=100, wall_thorough=1500), dict(scn="C02I", quick=1500, thorough=150000, wall_quick=90, wall_thorough=1200, only=["self-not-alive", "incarnation-decreased", "rank-regression", "event-pattern", "event-members-mismatch", "event-set-mismatch", "event-concurrent"])],
          "bench mode: one real node accused by puppets: sequences of 1-10 suspect/dead/alive-about-self/push-pull entries (all four states) at incarnation own-1, own, own+1, "
@@ -139,7 +142,8 @@ def register(prop):
          "member addresses; C04's invariants must keep holding at every step (no suspicion, no leave event, health 0), plus event-log, self and health monitors",
          assumptions=["'does not decode' is decided by a harness-side decoder built from the library's own codec functions under the receiver's configuration"])
 
-    prop("C09", [dict(scn="C09J", quick=300, thorough=30000, wall_quick=100, wall_thorough=1500), dict(scn="C09P", quick=500, thorough=40000, wall_quick=150, wall_thorough=2400)],
+    prop("C09", [dict(scn="C09J", quick=300, thorough=30000, wall_quick=100, wall_thorough=1500), dict(scn="C09P", quick=500, thorough=40000, wall_quick=150, wall_thorough=2400),
+                 dict(scn="C08M", quick=1200, thorough=120000, wall_quick=30, wall_thorough=400, only=["reclaim-refused"])],
          "C09J (cluster, fault-free fragmenting/delayed streams, gossip flowing, all yield sites): a fresh node joins 1-2 hosts of a live 1-6 node cluster; at the instant Join returns the "
          "joiner lists each host and every member the host reported alive (unchanged during the join); with deliveries held and zero virtual time passing, the hosts' handlers finish and "
          "each host lists the joiner. C09P (two real nodes with generated tables of 0-60 entries in all four states, duplicates, self-referential entries; encryption 0/16/32 x compression "
@@ -147,6 +151,7 @@ def register(prop):
          "boundary-biased offsets otherwise) - the side whose inbound data was incomplete keeps a bit-identical full digest (records, events, queued broadcasts, MergeRemoteState calls) and "
          "the initiator reports failure; merge-delegate veto on either side (join only); generated version 6-tuples with an independent compatibility rule (soundness direction); hearsay: "
          "remote dead/suspect about a locally alive member only starts suspicion and the member stays listed until S_min, remote left removes directly; "
+         "C08M (ownership grid, push/pull delivery cells): a member the peer reports alive from a new address must be listed when the local record is left or reclaimable-dead; "
          "non-trivial = a verdict was reached; " + FP,
          extra={"stream_cut_enumeration": "complete per byte offset for streams <= 500 bytes"})
 
